@@ -199,10 +199,16 @@ fn probe_failing_batch(
 
 fn data_nd(shape: &[usize]) -> ArrayD<f64> {
     let mut c = 0.0f64;
-    ArrayD::from_shape_fn(IxDyn(shape), |_| {
+    let mut d = ArrayD::from_shape_fn(IxDyn(shape), |_| {
         c += 1.0;
         (c * 0.37).sin() * 3.0 + c * 0.125
-    })
+    });
+    // the first two rows are exactly zero: the first interval (the cells along the first x interval)
+    // interpolates to zero, which a *_into call still has to write into the caller's buffer
+    if !shape.is_empty() && shape[0] >= 3 {
+        d.slice_axis_mut(ndarray::Axis(0), Slice::from(0..2)).fill(0.0);
+    }
+    d
 }
 
 fn query_nd(shape: &[usize], hi: f64) -> ArrayD<f64> {
@@ -649,7 +655,7 @@ fn body(ctx: &Ctx) -> (Summary, Meta) {
         out
     }));
     let meta = Meta {
-        rule: "every *_into entry point of Interp1D (Linear, CubicSpline) and Interp2D (Bilinear) x data shapes of rank 1..4 x query shapes of rank 0..3 x every static (data dim, query dim) instantiation matching those ranks plus the dynamic ones x buffer shape variants {correct, each axis -1/+1, every swap of two unequal axes (query axes, trailing axes, across), rank+1, two axes merged (same element count), refactored element count}, each buffer being a window into a larger array filled with poison; 2-D: xs/ys of different shapes (each axis +-1, permuted, flattened). Oracle: correct shape => Ok, bitwise equal to the allocating variant, no poison left inside; any other shape => never Ok; poison outside the window intact in every case. Every wrong shape is offered twice in a row to the same interpolator. The batch entry points are also driven with a user-defined strategy that writes its target without looking at the data (the entry point itself has to reject the buffer). Also with the query being exactly the knot vector of the axis (both axes in 2-D). Non-trivial = a wrongly shaped buffer or mismatched xs/ys.".into(),
+        rule: "every *_into entry point of Interp1D (Linear, CubicSpline) and Interp2D (Bilinear) x data shapes of rank 1..4 x query shapes of rank 0..3 x every static (data dim, query dim) instantiation matching those ranks plus the dynamic ones x buffer shape variants {correct, each axis -1/+1, every swap of two unequal axes (query axes, trailing axes, across), rank+1, two axes merged (same element count), refactored element count}, each buffer being a window into a larger array filled with poison; 2-D: xs/ys of different shapes (each axis +-1, permuted, flattened). Oracle: correct shape => Ok, bitwise equal to the allocating variant, no poison left inside; any other shape => never Ok; poison outside the window intact in every case. Every wrong shape is offered twice in a row to the same interpolator. The batch entry points are also driven with a user-defined strategy that writes its target without looking at the data (the entry point itself has to reject the buffer). The data holds an interval (row of cells) of exact zeros, with queries inside it. Also with the query being exactly the knot vector of the axis (both axes in 2-D). Non-trivial = a wrongly shaped buffer or mismatched xs/ys.".into(),
         bounds: format!("{njobs} (interpolator, data shape, query shape) jobs; tier {}", ctx.tier.name()),
         assumptions: vec!["a panic (caught) is the documented rejection; a returned Err would also count as 'not Ok'".into()],
         extra: vec![],
